@@ -513,3 +513,31 @@ func constStringOf(p *Prog, name string) string {
 	s := cst.Val().ExactString()
 	return strings.Trim(s, "\"")
 }
+
+// R-CLOSE-KEEP (C22 C08 C09): closing a database leaves the directory as it is. The mode check of the next
+// Open classifies the directory by the files it finds (any *.dat => has data; bpt => sparse), and recovery
+// replays exactly the segments that exist: a Close that removes, truncates, renames or creates files changes
+// what the next Open decides (an opened-and-closed directory no longer refuses the incompatible mode).
+func ruleCloseKeep(c *Ctx) {
+	cl := c.P.MustFunc("(*DB).Close")
+	cone := c.P.ModCone(cl)
+	nCalls := 0
+	for _, g := range cone {
+		calls(g, func(ssa.CallInstruction) { nCalls++ })
+		c.touch(g)
+	}
+	bad := 0
+	for _, s := range fsSitesIn(c.P, cl) {
+		switch s.eff.kind {
+		case "remove", "truncate", "rename", "create", "mkdir", "copydir":
+			bad++
+			c.bad("(*DB).Close", "no file is removed, resized, renamed or created | "+s.eff.desc+" in "+fnName(s.fn), c.P.ipos(s.in),
+				"Close reaches "+s.eff.desc+": the set of files in the directory after Close differs from the set the writes produced, and the next Open decides mode compatibility and what to replay from exactly that set (a directory that was opened and closed without a write no longer refuses the incompatible index mode)")
+		}
+	}
+	c.Sites += nCalls
+	if bad == 0 {
+		c.ok("(*DB).Close", "no file is removed, resized, renamed or created", c.P.pos(cl.Pos()), fmt.Sprintf("%d functions, %d call sites in the cone of Close", len(cone), nCalls))
+	}
+	c.minInstances("call sites in the cone of Close", nCalls, 2)
+}
